@@ -125,6 +125,9 @@ def transfer_forms():
     for pname, pb in (('cs', b'\x2e'), ('ds', b'\x3e'), ('es', b'\x26'), ('fs', b'\x64')):
         out += [('jcc4.rel8.seg', pb + b'\x74', 8, 32), ('jcc5.rel32.seg', pb + b'\x0f\x85', 32, 32), ('jmp.rel8.seg', pb + b'\xeb', 8, 32),
                 ('jmp.rel32.seg', pb + b'\xe9', 32, 32), ('call.rel32.seg', pb + b'\xe8', 32, 32), ('loop.seg', pb + b'\xe2', 8, 32)]
+    # a legal redundant repetition of the operand-size prefix (and one separated by a branch hint) still means 16-bit operands
+    out += [('jmp.rel16.dup66', b'\x66\x66\xe9', 16, 16), ('call.rel16.dup66', b'\x66\x2e\x66\xe8', 16, 16), ('jcc5.rel16.dup66', b'\x66\x66\x0f\x85', 16, 16),
+            ('jmp.rel8.dup66', b'\x66\x66\xeb', 8, 16), ('jmp.rel32.dup67', b'\x67\x67\xe9', 32, 32), ('jcc4.rel8.dup66x3', b'\x66\x66\x66\x74', 8, 16)]
     # the other legitimate configuration: a 16-bit code segment (dis(..., attrib={'opmode': u16})), where 66 selects 32-bit operands
     out += [('m16:jmp.rel16', b'\xe9', 16, 16), ('m16:jmp.rel32', b'\x66\xe9', 32, 32), ('m16:jmp.rel8', b'\xeb', 8, 16), ('m16:jmp.rel8.o32', b'\x66\xeb', 8, 32),
             ('m16:call.rel16', b'\xe8', 16, 16), ('m16:call.rel32', b'\x66\xe8', 32, 32), ('m16:jcc4.rel8', b'\x74', 8, 16), ('m16:jcc4.rel8.o32', b'\x66\x74', 8, 32),
